@@ -54,6 +54,21 @@ def permuted_tests(test_src, test_name, limit=24):
         t = test_src[:m.start(1)] + body + test_src[m.end(1):]
         t = t.replace("fn " + test_name + "()", f"fn {test_name}_p{len(variants)}()")
         variants.append(t)
+    # Kani builds the test from the trace of one failed property; when several instances of the
+    # same assertion fail (one per constant call site), the one-byte selector that picks the call
+    # site may belong to a different instance than the operand values (observed). The selector
+    # bytes are therefore also tried at 0..7.
+    singles = [i for i, n in enumerate(sizes) if n == 1]
+    for i in singles:
+        for v in range(8):
+            if len(variants) >= 2 * limit:
+                break
+            new_entries = [list(e) for e in entries]
+            new_entries[i][-1] = re.sub(r"vec!\[\d+\]", f"vec![{v}]", new_entries[i][-1])
+            body = "\n".join("\n".join(e) for e in new_entries)
+            t = test_src[:m.start(1)] + body + test_src[m.end(1):]
+            t = t.replace("fn " + test_name + "()", f"fn {test_name}_s{i}_{v}()")
+            variants.append(t)
     return variants
 
 
@@ -91,8 +106,11 @@ def _point_mod_at(ws, src, new_path, mod="__verif"):
     open(target, "w", encoding="utf-8").write(text)
 
 
-def run_playback_test(runner, ws, prop, h, test_src, test_name, profiles=("dev", "release")):
-    """Append the concrete-playback test to a copy of the harness file and run it natively."""
+def run_playback_test(runner, ws, prop, h, test_src, test_name, profiles=("dev", "release"), expect=None):
+    """Append the concrete-playback test to a copy of the harness file and run it natively.
+    `expect`: descriptions of the checks Kani reported as failed; a native failure counts only if
+    its panic message is one of them (a variant with a perturbed selector byte must fail for the
+    reported reason, not for some other one)."""
     import plan
     rdir = os.path.join(runner.CACHE, "replay", prop)
     os.makedirs(rdir, exist_ok=True)
@@ -143,7 +161,19 @@ def run_playback_test(runner, ws, prop, h, test_src, test_name, profiles=("dev",
         failed_variants = re.findall(r"test \S*(" + re.escape(test_name) + r"\w*) \.\.\. FAILED", out)
         if failed_variants:
             outcomes[prof + "_failed_variants"] = sorted(set(failed_variants))
-        if ran and int(ran.group(3)) >= 1:
+        messages = re.findall(r"panicked at [^\n]*:\n([^\n]*)", out)
+        outcomes[prof + "_panic_messages"] = sorted(set(messages))[:8]
+        def same_reason(msg):
+            if not expect:
+                return True
+            norm = lambda t: re.sub(r"[^a-z0-9 ]", "", t.lower()).strip()
+            # containment either way, or a common prefix ("index out of bounds: ..." is worded
+            # differently by Kani and by the native panic)
+            return any(norm(e) and (norm(e) in norm(msg) or norm(msg) in norm(e)
+                                    or (len(norm(e)) >= 16 and norm(e)[:16] == norm(msg)[:16])) for e in expect)
+        if ran and int(ran.group(3)) >= 1 and not any(same_reason(m_) for m_ in messages):
+            outcomes[prof] = "failed-for-another-reason"
+        elif ran and int(ran.group(3)) >= 1:
             outcomes[prof] = "failed"  # the native run hits the violation
         elif ran and int(ran.group(2)) >= 1:
             outcomes[prof] = "passed"
@@ -184,7 +214,8 @@ def replay_failure(runner, ws, prop, h, info):
     if kind == "none":
         reproduced, note = False, "this harness has no native replay (vacuity / trap twin)"
     elif kind == "playback":
-        outcomes = run_playback_test(runner, ws, prop, h, test_src, test_name)
+        outcomes = run_playback_test(runner, ws, prop, h, test_src, test_name,
+                                     expect=[c.get("description", "") for c in info.get("failed_checks", [])])
         rec["native"] = outcomes
         reproduced = outcomes.get("dev") == "failed" or outcomes.get("release") == "failed"
         note = f"dev={outcomes.get('dev')} release={outcomes.get('release')}: {outcomes.get('dev_detail', '')[:300]}"
